@@ -178,7 +178,7 @@ def rule_labels(P, rid):
         r.inst(("label", el.n), {"site": el.where(), "store": show(el.e)[:50], "label_len_le_63": ok})
         if not ok:
             r.bad("K4:dnsname_to_labels:label-too-long", el.where(), f.name, "a label length byte is emitted without the label_len > 63 rejection")
-    if len(lens) < 2:
+    if len(lens) < 1:
         r.brk("label length stores not recognised")
     nm = f.params[4][0]
     okn = any(is_e(strip(b.term["cond"]), "bin") and strip(b.term["cond"])[1] == ">" and is_e(strip(strip(b.term["cond"])[2]), "var") and strip(strip(b.term["cond"])[2])[1] == nm
@@ -205,20 +205,77 @@ def rule_labels(P, rid):
     if not adds:
         r.brk("no dnslabel_table_add call")
     # the table lookup hands out a position only for the *same* remaining name: whole-string equality, not a prefix match
+    # (decided by evaluating the lookup on small tables whose names are prefixes and suffixes of one another; the loop may be written any way)
+    from .interp import run_all, nkey, normx
     g = P.fn("dnslabel_table_get_pos")
-    lab = g.params[1][0]
-    for rt in g.returns():
-        v = strip(rt.e[1])
-        if is_e(v, "int"):
-            continue
-        gs = [negate_truth(c, t) for c, t, _ in g.guards_at(rt.bid)]
-        exact = any((not t) and is_e(strip(c), "call") and callee_name(strip(c)) in ("strcmp", "evutil_ascii_strcasecmp", "strcasecmp") and
-                    any(eq(strip(a), ["var", lab, "param"]) for a in strip(c)[2]) for c, t in gs)
-        r.inst(("lookup", rt.n), {"site": rt.where(), "returns": show(v), "under_whole_name_equality": exact})
-        if not exact:
-            r.bad("K4:dnslabel_table_get_pos:not-whole-name-equality", rt.where(), g.name,
-                  "a compression position is returned without a whole-string comparison of the remaining name with the remembered one: a name that merely "
-                  "starts with a remembered name would be replaced by a pointer to it and lose its tail")
+    tab, lab = g.params[0][0], g.params[1][0]
+    NAMES = ["a.b", "a.b.c", "b.c", "b", "a", ""]
+    LABEL = 5000
+    nbad = 0
+    nlook = 0
+    for n in range(0, 4):
+        import itertools
+        for names in itertools.permutations(NAMES[:5], n):
+            for want in NAMES[:5] + ["a.b.c.d", "c"]:
+                tv = ["var", tab, "param"]
+                env = {tab: 1, lab: LABEL, nkey(["fld", tv, "dnslabel_table.n_labels", "->"]): n}
+                addr = {LABEL: want}
+                for i, nm_ in enumerate(names):
+                    ent = ["idx", ["fld", tv, "dnslabel_table.labels", "->"], ["int", i]]
+                    env[nkey(["fld", ent, "dnslabel_entry.v", "."])] = 6000 + i
+                    env[nkey(["fld", ent, "dnslabel_entry.pos", "."])] = 12 + 7 * i
+                    addr[6000 + i] = nm_
+                def conc(e, e_):
+                    if not isinstance(e, list):
+                        return e
+                    q = [conc(x, e_) for x in e]
+                    if is_e(q, "idx") and not is_e(strip(q[2]), "int"):
+                        try:
+                            q[2] = ["int", evalx(q[2], e_, P)]
+                        except Exception:
+                            pass
+                    return q
+                def hook(el, e_):
+                    cn = callee_name(el.e)
+                    if cn in ("strcmp", "evutil_ascii_strcasecmp", "strcasecmp", "strncmp", "evutil_ascii_strncasecmp", "strncasecmp"):
+                        try:
+                            x = addr[evalx(conc(normx(el.e[2][0]), e_), e_, P)]
+                            y = addr[evalx(conc(normx(el.e[2][1]), e_), e_, P)]
+                        except Exception:
+                            return None
+                        if "strn" in cn or "strnc" in cn:
+                            k = evalx(conc(normx(el.e[2][2]), e_), e_, P)
+                            if not isinstance(k, int):
+                                return None
+                            x, y = x[:k], y[:k]
+                        if "case" in cn:
+                            x, y = x.lower(), y.lower()
+                        return (x > y) - (x < y)
+                    if cn == "strlen":
+                        try:
+                            return len(addr[evalx(conc(normx(el.e[2][0]), e_), e_, P)])
+                        except Exception:
+                            return None
+                    return None
+                for o in run_all(g, (g.entry, 0), env, lambda el: False, P, hook, max_steps=400):
+                    if o.kind != "ret":
+                        r.brk("dnslabel_table_get_pos(%r in %r): %s %s" % (want, names, o.kind, getattr(o, "why", "")))
+                        break
+                    nlook += 1
+                    try:
+                        val = evalx(conc(normx(o.at.e[1]), o.env), o.env, P)
+                    except Exception:
+                        val = None
+                    exp = [12 + 7 * i for i, nm_ in enumerate(names) if nm_ == want]
+                    good = (val in exp) if exp else (isinstance(val, int) and val < 0)
+                    if not good and nbad < 3:
+                        nbad += 1
+                        r.bad("K4:dnslabel_table_get_pos:not-whole-name-equality", "%s:%d" % (g.file, g.line), g.name,
+                              "looking up %r in a table remembering %s gives %r (expected %s): a compression position may be handed out only for the very same remaining name - a name that "
+                              "merely starts with a remembered name would be replaced by a pointer to it and lose its tail" % (want, list(names), val, exp[0] if exp else "a negative value"))
+    r.inst("lookup", {"fn": g.name, "tables_times_names_evaluated": nlook, "names": NAMES[:5] + ["a.b.c.d", "c"]})
+    if nlook < 500:
+        r.brk("dnslabel_table_get_pos: only %d lookups evaluated" % nlook)
     ptr = [el for el in f.elems() if el.e[0] == "asg" and any(is_e(q, "bin") and q[1] == "|" and is_e(strip(q[3]), "int") and strip(q[3])[1] == 0xc000 for q in walk(el.e))]
     r.inst("marker", {"pointer_emission": [show(e.e)[:50] for e in ptr]})
     if not ptr:
